@@ -128,6 +128,46 @@ func Equals(left, right Object) bool {
 	return Cmp(left, right) == 0
 }
 
+// Identical is exact, structural equality: the same type (an integer is not a float, +0.0 is not -0.0) and, for
+// arrays and maps, the same length with pairwise identical elements, keys and values. Equals (the == of the
+// language) is coarser inside containers, where integers and floats are ordered together ([1] == [1.0]).
+// No dereference at the top: a Reference is not identical to the value it refers to (as with Equals).
+func Identical(a, b Object) bool {
+	if a.Type() != b.Type() {
+		return false
+	}
+	switch a.Type() { //nolint:exhaustive // the other types have no finer notion than Equals.
+	case INTEGER:
+		return a.(Integer).Value == b.(Integer).Value
+	case FLOAT:
+		return math.Float64bits(a.(Float).Value) == math.Float64bits(b.(Float).Value)
+	case ARRAY:
+		ae, be := Elements(a), Elements(b)
+		if len(ae) != len(be) {
+			return false
+		}
+		for i := range ae {
+			if !Identical(ae[i], be[i]) {
+				return false
+			}
+		}
+		return true
+	case MAP:
+		am, bm := a.(Map).mapElements(), b.(Map).mapElements()
+		if len(am) != len(bm) {
+			return false
+		}
+		for i := range am {
+			if !Identical(am[i].Key, bm[i].Key) || !Identical(am[i].Value, bm[i].Value) {
+				return false
+			}
+		}
+		return true
+	default:
+		return Equals(a, b)
+	}
+}
+
 func CopyRegister(o Object) Object {
 	if r, ok := o.(*Register); ok {
 		return r.ObjValue()
